@@ -67,6 +67,7 @@ func child(a []string) {
 			os.Exit(3)
 		}
 		r.FP = true
+		r.FPStep = fp.Step
 		stopFP = fp.Start(seed)
 	}
 	if len(a) >= 5 {
